@@ -49,6 +49,10 @@ def run_task(task):
             if status == "raise":
                 e = payload
                 ctx.oblige(f"{prefix}/noexc:{e.kind}@{e.loc or '?'}", False, (), "noexc", {"msg": e.msg})
+            # frame of the scenario inputs: cells created by Session.tensor must not have been updated in place
+            for (nm, cell, orig) in ctx.ghost.get("input_cells", []):
+                if cell.val is not orig:
+                    ctx.oblige(f"{prefix}/frame:input-tensor-{nm}-not-modified-in-place", False, (), "frame")
             # vacuity of the path
             s = z3.Solver()
             s.set("timeout", 5000)
